@@ -150,12 +150,12 @@ theorem valdiff_exact_unchanged (X : SchemaX) (o : VOpts) (fx : Diff.Fixes) (t :
 change set, and applying it to `t'` gives `validate t'` (= `t'`).  So a second validation never reports a change that did not
 happen and never hides one — in the class; outside it F189 / F400 hide one (`validate_idempotent_choice_fails`). -/
 theorem valdiff_exact_partial_validated (X : SchemaX) (o : VOpts) (fx : Diff.Fixes) (t : List DNode)
-    (hq1 : X.q.implicitInnerCase = false) (hq2 : X.q.autodelDirectCase = false)
+    (hq1 : X.q.implicitInnerCase = false) (hq2 : X.q.autodelDirectCase = false) (hq3 : X.q.casesCountDefault = true)
     (hl : KidsLookupOk X) (hw : CaseWf X) (hnp : NoNpContInCase X ∨ (npInvL X.base t ∧ newExplL t))
     (hp : placedCL X X.top t = true) (hh : sheightL X.top ≤ walkFuel X t)
     (hv : (validate X o (validate X o t).tree).errs = []) :
     validateDiff X o (validate X o t).tree = some [] ∧ valdiffExact X o fx (validate X o t).tree = true := by
-  obtain ⟨h1, h2⟩ := validate_idempotent2 X o hq1 hq2 hl hw t hnp hp hh
+  obtain ⟨h1, h2⟩ := validate_idempotent2 X o hq1 hq2 hq3 hl hw t hnp hp hh
   obtain ⟨a, _, c⟩ := valdiffExact_of_unchanged X o fx _ h1 h2 hv
   exact ⟨a, c⟩
 
